@@ -215,7 +215,7 @@ mod mmv_pure {
         s
     }
 
-    fn exec(cut: &mut Cut, cfg: &Config, op: &Op) -> String {
+    fn exec(cut: &mut Cut, cfg: &Config, op: &Op, is_base: bool) -> String {
         let r = match *op {
             Op::Insert { k, vid, w } => {
                 cut.insert(k, vid, w);
@@ -249,7 +249,9 @@ mod mmv_pure {
                 String::new()
             }
         };
-        if cfg.kind == Kind::Sync && cfg.density == mmv::hist::Density::Every && !matches!(op, Op::Advance { .. } | Op::Sync) {
+        // the driver's own sync() belongs to the base ops only: an extra observation must not
+        // bring any maintenance with it
+        if is_base && cfg.kind == Kind::Sync && cfg.density == mmv::hist::Density::Every && !matches!(op, Op::Advance { .. } | Op::Sync) {
             cut.sync();
         }
         r
@@ -261,7 +263,7 @@ mod mmv_pure {
         let mut cut = Cut::new(cfg);
         let mut obs = Vec::new();
         for (op, is_base) in ops {
-            let r = std::panic::catch_unwind(std::panic::AssertUnwindSafe(|| exec(&mut cut, cfg, op)));
+            let r = std::panic::catch_unwind(std::panic::AssertUnwindSafe(|| exec(&mut cut, cfg, op, *is_base)));
             match r {
                 Ok(res) => {
                     if *is_base {
@@ -350,7 +352,7 @@ mod mmv_pure {
                 let op = gen.next_op(&cfg, &truth, now);
                 base.push(op);
                 let eff = |w: u32| if cfg.weigher { w } else { 1 };
-                let r = std::panic::catch_unwind(std::panic::AssertUnwindSafe(|| exec(&mut cut, &cfg, &op)));
+                let r = std::panic::catch_unwind(std::panic::AssertUnwindSafe(|| exec(&mut cut, &cfg, &op, true)));
                 if r.is_err() {
                     ok = false;
                     let _ = mmv::monitor::take_panic();
